@@ -43,6 +43,9 @@ def check(ck: Checker) -> None:
 
     check_index_read_after_validation(ck, "C18.closed")
     _collect_skip(ck, "C18.closed")
+    from . import round7 as _r7
+
+    _r7.collect_every_entry(ck, "C18.closed")
     _objectpath(ck)
     _accessors(ck)
     for o in ck.obs:
